@@ -41,6 +41,8 @@ type Ctx struct {
 	globOrder []string
 	opaque    map[string]int
 	mods      *modAnalysis
+	mutableGlobals map[string]bool
+	initNonNil     map[string]bool
 	loadErrs  []string
 }
 
@@ -119,6 +121,25 @@ func LoadCtx(repo, verif string, overlay map[string][]byte) (*Ctx, error) {
 		}
 		if err := c.contracts.ParseContractText(sp, "", lines, nos); err != nil {
 			return c, err
+		}
+	}
+	// package-level variables with an initialiser that is a call, composite literal, &literal or make()
+	c.initNonNil = map[string]bool{}
+	for _, p := range pkgs {
+		if p.TypesInfo == nil {
+			continue
+		}
+		for _, init := range p.TypesInfo.InitOrder {
+			if len(init.Lhs) != 1 {
+				continue
+			}
+			switch x := ast.Unparen(init.Rhs).(type) {
+			case *ast.CompositeLit, *ast.CallExpr, *ast.FuncLit:
+				c.initNonNil[p.PkgPath+"."+init.Lhs[0].Name()] = true
+			case *ast.UnaryExpr:
+				_ = x
+				c.initNonNil[p.PkgPath+"."+init.Lhs[0].Name()] = true
+			}
 		}
 	}
 	c.buildModAnalysis()
